@@ -31,7 +31,7 @@ PROPS = {"cpmc": "propagator_cpmc", "cpmc_slow": "propagator_cpmc_slow", "cpmc_n
 
 class CpmcF(engine_f.FCase):
     check_id = "C09"
-    timeout_s = 300
+    timeout_s = 900  # per query; typical 2-50 s, up to ~120 s on a loaded machine
     z3_first_ms = 0  # z3 gives up on these mixed UF + FP queries (measured: > 120 s); cvc5 decides them in seconds, concurrently
     # linear algebra and the incremental Green's function machinery are havocked as whole calls (their results are arbitrary doubles)
     havoc_calls = ("calc_full_green_vmap", "calc_full_green", "calc_overlap_ratio_vmap", "update_greens_function_vmap", "_calc_overlap",
